@@ -215,6 +215,27 @@ def attr_project(idx):
     return [("lib.rs", "".join(src))]
 
 
+def collision_project(idx):
+    """many claimants on one generated name: commands that derive one TypeScript name three to six times over (platform variants, case
+    and underscore variants, a command that is literally called <name>2), structs that occupy <Name>Params / <Name>2Params, events whose
+    listener names coincide — every de-duplication loop gets more than one round"""
+    k = 3 + idx % 4
+    variants = ["get_user", "getUser", "get__user", "get_user_", "GetUser", "_get_user", "get_user2", "getUser2", "get_user_2"]
+    names = [variants[(idx + j) % len(variants)] for j in range(k)]
+    src = [HDR, "#[derive(Serialize, Deserialize)]\npub struct User { pub id: i32 }\n\n"]
+    if idx % 3 == 0:
+        names = ["open_settings"] * k                       # one command, k platform-gated implementations
+    for j, nm in enumerate(names):
+        gate = '#[cfg(target_os = "%s")]\n' % ["linux", "macos", "windows", "ios", "android", "freebsd"][j % 6] if idx % 3 == 0 else ""
+        src.append("%s#[tauri::command]\npub fn %s(id: i32, extra_%d: Option<String>) -> User {\n    todo!()\n}\n\n" % (gate, nm, j))
+    if idx % 2 == 0:
+        for nm in ("GetUserParams", "GetUser2Params", "GetUser3Params", "OpenSettingsParams", "OpenSettings2Params"):
+            src.append("#[derive(Serialize, Deserialize)]\npub struct %s { pub v: i32 }\n\n#[tauri::command]\npub fn uses_%s(p: %s) {}\n\n" % (nm, nm.lower(), nm))
+    evs = ["user-login", "user_login", "user:login", "user/login", "userLogin", "user-login2", "user_login_2", "user--login"][: 3 + idx % 6]
+    src.append("pub fn many_events(app: AppHandle) {\n" + "".join("    app.emit(\"%s\", %d).unwrap();\n" % (e, j) for j, e in enumerate(evs)) + "}\n")
+    return [("lib.rs", "".join(src))]
+
+
 NON_RUST = ["", "\n\n\n", "{", "}}}}", "fn", "#[tauri::command]", "#[tauri::command]\npub fn", "\"unterminated", "/* never closed", "'", "r#\"raw never closed",
             "<html><body>not rust</body></html>", "{\"json\": true}", "0x", "#!/bin/sh\necho hi\n", "\ufeff// BOM\nfn ok() {}", "fn a() { b( }", "struct S { a: }", "日本語のテキスト",
             "#[derive(Serialize)] struct", "pub fn f() -> { }", "impl", "fn f(a: i32, ) -> ) {}", "\\", "\x00\x01\x02", "fn main() { let s = \"\\u{110000}\"; }", "#[serde(rename = )] struct S;",
@@ -253,7 +274,12 @@ def reach_cmds(text, k):
     return "#[tauri::command]\npub fn reach_%d(%s) -> Vec<%s> { todo!() }\n" % (k, params, names[0])
 
 
+CPU_BUDGET = 40      # CPU-seconds per tool run (typical: a few hundredths); exhausting it is non-termination for every practical purpose
+
+
 def classify_run(r):
+    if r.rc == -24 or (r.rc == -9 and not r.timed_out):
+        return "cpu-budget-exhausted(%ds)" % CPU_BUDGET        # SIGXCPU (or the hard limit's SIGKILL): load-independent, unlike the watchdog
     if r.timed_out:
         return "timeout"
     if r.rc is not None and r.rc < 0:
@@ -282,11 +308,11 @@ def run_batch(a):
                 import json
                 json.dump({"project_path": os.path.join(root, "src"), "output_path": os.path.join(root, "out"), "validation_library": mode, "verbose": len(sub) % 2 == 1,
                            "visualize_deps": len(sub) % 3 == 1}, open(os.path.join(root, "cfg.json"), "w"))
-                r = common.run([drv, "gen", os.path.join(root, "cfg.json")], cwd=root, timeout=120)
+                r = common.run([drv, "gen", os.path.join(root, "cfg.json")], cwd=root, timeout=120, cpu_limit=CPU_BUDGET)
             else:
                 # "cli+viz" / "cli+verbose": the options add code paths of their own (graph rendering, listings of what was found)
                 r = common.cli_generate(cli, project=os.path.join(root, "src"), out=os.path.join(root, "out"), mode=mode, cwd=root, timeout=120,
-                                        viz="viz" in via, verbose="verbose" in via)
+                                        viz="viz" in via, verbose="verbose" in via, cpu_limit=CPU_BUDGET)
             counts["files_reported_unparsable"] += r.err.count("Failed to parse")
             counts["files_given"] += len(files)
             return classify_run(r), r
@@ -446,6 +472,9 @@ def run(tier):
         add("attribute-forms", attr_items, "none", bsize=16)
         add("attribute-forms", attr_items, "zod", bsize=16)
         add("attribute-forms", attr_items, "zod", via="driver", bsize=16)
+    coll = [("name-collisions-%d" % i, collision_project(i)) for i in range(24 if tier == "quick" else 240)]
+    for k, (mode, via) in enumerate([("none", "cli"), ("zod", "cli"), ("zod", "driver")]):
+        add("name-collisions", coll[k::3] if tier == "quick" else coll, mode, via=via, bsize=1)
     nonrust = [("non-rust-%d" % i, [("f.rs", t), ("ok.rs", "#[tauri::command]\npub fn ok_cmd() {}\n")]) for i, t in enumerate(NON_RUST)]
     add("non-rust", nonrust, "none", bsize=4)
     add("non-rust", nonrust, "zod", via="driver", bsize=4)
